@@ -258,6 +258,32 @@ Theorem C18_model_is_source_optimal_size_smoother :
 Proof. exact src_optimal_size_is_model. Qed.
 Print Assumptions C18_model_is_source_optimal_size_smoother.
 
+(* PlatePermutationPlateGenerator._generate_plates (whole method): everything around its ONE request is request-free, for ANY
+   screen type and meaning of screen.subset(v).to_screen(), of the Screen(...) construction and of a.combine(b) *)
+Theorem C18_model_is_source_plate_permutation :
+  forall (Scr : Type) (scr_size : Scr -> Z) (scr_plate_names : Scr -> list Z) (mk_subset : Scr -> list bool -> result Scr)
+         (mk_renamed : Scr -> list Z -> result Scr) (mk_combine : Scr -> Scr -> result Scr) force screen,
+  prog_eq_on any_answer
+    (src_plate_permutation Scr scr_size scr_plate_names mk_subset mk_renamed mk_combine force screen)
+    (match pp_split mk_subset screen (pp_selection force (scr_plate_names screen) (scr_size screen)) with
+     | Err e => Ret (Err e)
+     | Ok (tp, np) => bind (plate_permutation_prog (scr_plate_names tp))
+                           (fun new_names => Ret (pp_finish mk_renamed mk_combine tp np new_names))
+     end).
+Proof. exact src_plate_permutation_is_model. Qed.
+Print Assumptions C18_model_is_source_plate_permutation.
+
+(* SampleSegregatingPermutationPlateGenerator._generate_plates (whole method) *)
+Theorem C18_model_is_source_sample_segregating :
+  forall (Scr : Type) (scr_size : Scr -> Z) (scr_sample_ids : Scr -> list Z) (scr_sample_rows : Scr -> Z -> list Z)
+         (mk_labelled : Scr -> list Z -> result Scr) max_plate_size screen,
+  prog_eq_on any_answer
+    (src_sample_segregating Scr scr_size scr_sample_ids scr_sample_rows mk_labelled max_plate_size screen)
+    (bind (sample_seg_prog (map (scr_sample_rows screen) (scr_sample_ids screen)) (scr_size screen) max_plate_size)
+          (fun r => Ret (match r with Ok labels => mk_labelled screen labels | Err e => Err e end))).
+Proof. exact src_sample_segregating_is_model. Qed.
+Print Assumptions C18_model_is_source_sample_segregating.
+
 (* the trace theorems, now about the translated source *)
 Theorem C18_source_fixed_size_smoother_trace :
   forall (Scr : Type) (scr_size : Scr -> Z) (scr_plates : Scr -> list (list bool)) (mk_subset : Scr -> list bool -> result Scr)
@@ -333,3 +359,21 @@ Example C18_source_optimal_size_example :
   = Ok (Ok tt, [RChoice [0; 1; 2] 2 false])
   /\ run (src_optimal_size_smooth unit (fun _ => 6) (fun _ => plates) (fun _ _ => Ok tt) (fun _ => Err 3) tt) [] = Ok (Err 3, []).
 Proof. vm_compute. split; reflexivity. Qed.
+
+(* plate names 7 7 8 9 with 9 force-included: the names 7 7 8 of the first three rows are permuted *)
+Example C18_source_plate_permutation_example :
+  run (src_plate_permutation (list Z) zlen (fun s => s) (fun s v => Ok (map snd (filter fst (combine v s))))
+                             (fun _ new_names => Ok new_names) (fun a b => Ok (a ++ b)) (Some [9]) [7; 7; 8; 9]) [[8; 7; 7]]
+  = Ok (Ok [8; 7; 7; 9], [RPermutation [7; 7; 8]])
+  /\ valid_answer (RPermutation [7; 7; 8]) [8; 7; 7] = true /\ valid_answer (RPermutation [7; 7; 8]) [8; 8; 7] = false.
+Proof. vm_compute. repeat split; reflexivity. Qed.
+
+(* samples 0 (rows 0 2 4 5 6) and 1 (rows 1 3), at most 2 rows per plate: sample 0 is permuted and split 2 + 2 + 1 *)
+Example C18_source_sample_segregating_example :
+  run (src_sample_segregating unit (fun _ => 7) (fun _ => [0; 1]) (fun _ i => if i =? 0 then [0; 2; 4; 5; 6] else [1; 3])
+                              (fun _ labels => if nth 6 labels 0 =? 1 then Ok tt else Err 7) 2 tt) [[5; 0; 6; 2; 4]]
+  = Ok (Ok tt, [RPermutation [0; 2; 4; 5; 6]])
+  /\ run (sample_seg_prog [[0; 2; 4; 5; 6]; [1; 3]] 7 2) [[5; 0; 6; 2; 4]]
+     = Ok (Ok [0; 3; 1; 3; 2; 0; 1], [RPermutation [0; 2; 4; 5; 6]])
+  /\ run (sample_seg_prog [[0; 2; 4]] 3 0) [] = Ok (Err 94, []).
+Proof. vm_compute. repeat split; reflexivity. Qed.
